@@ -1,5 +1,4 @@
-\* variant (not the code): ClientRegistry.Register releases the registry lock between evicting the oldest
-\* connection and inserting the new one.
+\* variant: ClientRegistry.Register releases the registry lock between evicting the oldest connection and inserting.
 \*   tlc -config Limits_show_ctrlsplit.cfg Limits.tla   (expected: Invariant NoOvershoot is violated, e.g. n = 3,
 \*   limit = 1: Reg(1), Reg(2) [evicts 1, inside Close], Reg(3) [below the cap: inserts], RegIns(2))
 CONSTANTS
@@ -7,13 +6,15 @@ CONSTANTS
   NS = {2, 3, 4}
   Lims = {0, 1, 2}
   NodeCounts = {1}
-  LockKeys = {"owner"}
   Variants = {"ctrlsplit"}
+  Shape = "free"
   MaxReRel = 2
-  Slacks = {1}
+  Slacks = {1, 2}
+  Listers = 1
   FixedKinds = {"conncap", "maplimit", "maplive", "codequota", "mapquota"}
   WithRelease = TRUE
   Emit = FALSE
+  EmitMaxN = 4
   EmitAll = FALSE
 INIT Init
 NEXT Next
